@@ -90,6 +90,14 @@ func verifHarness_C17_roundRobin() {
 		prev = cur
 	}
 	vAssert(!p.RequiresConsistency(), "no-consistency")
+	// the partition count may change between calls (partitions lose or regain their leader)
+	n2 := vInt32("n2")
+	vAssume(n2 > 0)
+	for i := 0; i < 2; i++ {
+		cur, err := p.Partition(&ProducerMessage{}, n2)
+		vAssert(err == nil && cur >= 0 && cur < n2, "in-range-after-the-partition-count-changed")
+	}
+	vCover("count-shrinks-below-cursor", n2 < prev)
 	vReach()
 }
 
